@@ -90,6 +90,18 @@ def check(run):
             continue
         judge_roundtrip(J, "pairs", c, c["sql"], r)
     n1 += len(cases)
+    # stream (iv): exhaustive insertion sweep -- the failing mutants are re-run for the full report
+    cases, sw = rtlib.sweep_failures(run, "roundtrip")
+    run.notes["insertion_sweep"] = sw
+    J.stream("sweep")["cases"] += sw.get("tried", 0)
+    J.stream("sweep")["accepted"] += sw.get("accepted", 0)
+    J.stream("sweep")["rejected_or_no_site"] += sw.get("tried", 0) - sw.get("accepted", 0)
+    res = run_bin_parallel(PKG, ["roundtrip"], cases, pkg=PKG) if cases else []
+    for c, r in zip(cases, res):
+        if r["status"] in ("rejected", "ok"):
+            continue
+        J.stream("sweep")["accepted"] -= 1   # counted again by judge_roundtrip
+        judge_roundtrip(J, "sweep", c, c["sql"], r, origin=c["origin"])
     # streams (ii): splice / substitution mutations of corpus texts
     nmut = 0
     for stream, cases in rtlib.mutation_streams(run):
